@@ -66,3 +66,75 @@ def run_engine(rep, thorough):
             continue
         rep.violation('engine:%s|%s|%s' % (e['name'], clause, e['cls']), 'primitive %s inside %s: %s (pos %s -> %s of %s, out %s need %s)' % (
             e['name'], e['cls'], clause, e['pos0'], e['pos1'], e['len'], e['out'], e['need']), e)
+
+
+# ---------------------------------------------------------------------------------------------- variant dispatch
+def dispatch_drive(arg):
+    qual, seed, per_seed = arg
+    import random
+    from cryptoparser.common.base import VariantParsableExact
+    from ..api import dig
+    cls = corpus.resolve(qual)
+    rng = random.Random('disp:%s:%s' % (seed, qual))
+    lib = corpus.by_class()
+    exact = issubclass(cls, VariantParsableExact)
+    try:
+        alts = list(cls._get_variant_types())          # pylint: disable=protected-access
+    except Exception:  # pylint: disable=broad-except
+        return []
+    seeds = list(lib.get(cls, []))
+    for a in alts:                                       # inputs of the alternatives are inputs of the variant
+        seeds += list(lib.get(a, []))[:3]
+    seeds = [s for s in dict.fromkeys(seeds) if len(s) <= 1500][:10]
+    events = []
+
+    def answer(fn, data):
+        o, res, _ = call(fn, data)
+        if o != 'ok':
+            return {'out': o, 'n': 0, 'dg': '-'}
+        if isinstance(res, tuple):
+            return {'out': 'ok', 'n': res[1] if isinstance(res[1], int) else -1, 'dg': dig(res[0])}
+        return {'out': 'ok', 'n': len(data), 'dg': dig(res)}
+    for sd in seeds:
+        for data in [sd] + mutants(sd, rng, per_seed, others=[rng.choice(_ALLSEEDS)])[:per_seed * 5]:
+            outs = []
+            for a in alts:
+                x = answer(a.parse_exact_size if exact else a.parse_immutable, data)
+                x['v'] = a.__name__
+                outs.append(x)
+            res = answer(cls.parse_immutable, data)
+            events.append({'cls': qual.replace('cryptoparser.', ''), 'exact': exact, 'len': len(data), 'outs': outs, 'res': res,
+                           'hex': data[:200].hex()})
+    return events
+
+
+def run_dispatch(rep, thorough):
+    from ..par import pmap
+    from cryptoparser.common.base import VariantParsableBase
+    res = tlc.require_ok(tlc.run('MC_Dispatch', 'MC_Dispatch', workers=4, timeout=300, deadlock=False), 'MC_Dispatch')
+    rep.add_tlc(res, 'MC_Dispatch (as-coded variant dispatchers: never "invalid type", one of the answers, stable behind the deciding alternative)')
+    lib = corpus.by_class()
+    _ALLSEEDS[:] = [d for ds in lib.values() for d in ds]
+    classes = []
+    for c in corpus.all_subclasses(VariantParsableBase):
+        try:
+            if c._get_variant_types():                   # pylint: disable=protected-access
+                classes.append(c)
+        except Exception:  # pylint: disable=broad-except
+            continue
+    classes = sorted(set(classes), key=lambda c: c.__module__ + c.__qualname__)
+    events = []
+    for evs in pmap(dispatch_drive, [(c.__module__ + '.' + c.__qualname__, rep.seed, 40 if thorough else 12) for c in classes]):
+        events += evs
+    rep.extra['variant_classes'] = len(classes)
+    rep.extra['dispatch_events'] = len(events)
+    rep.evaluations += len(events)
+    rep.distinct.update('disp|%s|%s' % (e['cls'], e['hex']) for e in events)
+    if events:
+        rep.sample({k: events[0][k] for k in ('cls', 'exact', 'outs', 'res')})
+    slim = [{k: e[k] for k in ('exact', 'len', 'outs', 'res')} for e in events]
+    traces = [slim[i:i + 3000] for i in range(0, len(slim), 3000)]
+    for tup, ti, ei, _ in judge.run(rep, 'Trace_Dispatch', list(enumerate(traces)), 'dispatch', max_lines=20000):
+        e = events[ti * 3000 + ei]
+        rep.violation('dispatch:%s|%s|%s' % (e['cls'], tup[1], 'variant'), 'variant dispatcher %s: %s (alternatives %s, dispatcher %s)' % (
+            e['cls'], tup[1], [(o['v'], o['out'], o['n']) for o in e['outs']], (e['res']['out'], e['res']['n'])), e)
